@@ -32,3 +32,16 @@ Print Assumptions C11_no_deadlock.
 Theorem C11_wait_empty : forall len obs l, wait_empty len obs = Some (true, l) -> l = 0.
 Proof. exact wait_empty_success. Qed.
 Print Assumptions C11_wait_empty.
+
+(* No lost wake-up on the "queue empty" condition: with the broadcast the code uses (checked
+   in C11_discipline: notify_broadcasts), whenever the queue is empty no thread is still
+   blocked in ares_queue_wait_empty, for any number of waiters and any history ... *)
+Theorem C11_no_lost_wakeup : forall tr, w_len (wrun true tr) = 0 -> w_blocked (wrun true tr) = nil.
+Proof. exact no_lost_wakeup. Qed.
+Print Assumptions C11_no_lost_wakeup.
+
+(* ... and a single-waiter signal in its place would lose the second waiter. *)
+Theorem C11_lost_wakeup_with_signal_refuted :
+  exists tr, w_len (wrun false tr) = 0 /\ w_blocked (wrun false tr) <> nil.
+Proof. exact lost_wakeup_with_signal. Qed.
+Print Assumptions C11_lost_wakeup_with_signal_refuted.
